@@ -4,7 +4,7 @@
 # seeded/<ID-n>/regress.conf may set PATCH= (a rebased patch), TIER=, ONLY_KIND= (partial thorough run of one shard kind) and
 # CHECK= (the sibling check whose property the change really violates, see DESIGN 10.2 round D).
 cd /verif
-LIST="${*:-$(ls seeded)}"
+LIST="${*:-$(ls -d seeded/*/ | xargs -n1 basename)}"
 for S in $LIST; do
   ID=$(echo "$S" | cut -d- -f1)
   PATCH=patch.diff; TIER=quick; ONLY_KIND=; CHECK=$ID
